@@ -1460,6 +1460,9 @@ def _v_join(env, t, step):
         res.dtype[c] = right.dtype[c]
     res.scope = left.scope | right.scope
     res.idcols = (list(left.idcols) + list(right.idcols)) if how == "inner" else []
+    # bookkeeping for K03 / K05: the library keeps the constant type of a column across a join
+    res.const_cols = set(left.const_cols) | set(right.const_cols)
+    res.agg_cols = set(left.agg_cols) | set(right.agg_cols)
     res.visible = list(left.visible) + [(ren[n], c) for n, c in right.visible]
     names = res.names()
     if len(set(names)) != len(names):
